@@ -146,7 +146,7 @@ def r2(prog, ev, rep):
 
 def r3(prog, ev, rep):
     rep.rule("C02-R3", "descendant expansion is pre-order: reduce(Ref(node), children.flat_map(same function)) with children "
-             "enumerated directly from as_array().iter() / as_object().into_iter() by order-preserving adaptors", floor=2)
+             "enumerated directly from as_array().iter() / as_object().into_iter() by order-preserving adaptors; every input node is expanded", floor=3)
     gp = prog.impl_method(Q, M + "Segment", "process")
     gt = ev.summary(gp)
     sel = tables.select(gt.a[1], ("v", "Descendant", [tables.ANY])) if gt.k == "match" else []
@@ -157,6 +157,11 @@ def r3(prog, ev, rep):
     if len(exp) != 1:
         rep.unrecognised("C02-R3", "expansion", prog.loc_of(gp), "expansion function not found"); return
     fn = exp[0]
+    ok_apply = body.k == "call" and body.a[0] == gp and body.a[2].k == "call" and body.a[2].a[0].endswith("State::<'a, T>::flat_map") \
+        and body.a[2].a[1].k == "param" and body.a[2].a[1].a[0] == 1 and body.a[2].a[2] == Tm("fnitem", (fn,))
+    rep.check(ok_apply, "C02-R3", "Segment::Descendant/every-input", prog.loc_of(gp), "segment.process(step.flat_map(expand)) on the whole incoming list",
+              "the descendant segment does not expand *every* input node (incoming list is `%s`): nodes reached from nested or repeated inputs "
+              "lose their multiplicity" % (body.a[2].a[1] if body.k == "call" and len(body.a) > 2 and body.a[2].k == "call" else body))
     t = ev.summary(fn)
     where = prog.loc_of(fn)
     node = Tm("param", (0, prog.params(fn)[0]["pat"].get("name", "data")))
